@@ -268,7 +268,7 @@ def knn_one(ck, dn, ref, nbr, k, o, srt, vals_t, idx_t, reg, wit):
 def run_knn(ck, rng, dn, thorough):
     u = u_of(dn)
     kinds = ("uniform", "gauss", "lattice", "dup", "outliers")
-    reps = 16 if thorough else 4
+    reps = 64 if thorough else 4
     case = 0
     for rep in range(reps):
         for kind in kinds:
@@ -357,7 +357,7 @@ def kclass(k, n):
 # ------------------------------------------------------------------------------- nbr_filter
 def run_nbr(ck, rng, dn, thorough):
     u = u_of(dn)
-    reps = 16 if thorough else 4
+    reps = 64 if thorough else 4
     case = 0
     plan = [("outliers", w) for w in ("first", "middle", "last", "random")] + [("uniform", "-"), ("gauss", "-"),
                                                                                  ("lattice", "-"), ("dup", "-")]
@@ -468,7 +468,7 @@ def knn_filter_expect(full, pdim, k, o, u, radius=None):
 
 def run_knn_filter(ck, rng, dn, thorough):
     u = u_of(dn)
-    reps = 16 if thorough else 4
+    reps = 64 if thorough else 4
     case = 0
     plan = [("outliers", w) for w in ("first", "middle", "last", "random")] + [("uniform", "-"), ("gauss", "-"),
                                                                                  ("lattice", "-"), ("dup", "-")]
@@ -626,7 +626,7 @@ def voxel_cloud(rng, n, vdim, dn, mode):
 
 def run_voxel(ck, rng, dn, thorough):
     u = u_of(dn)
-    reps = 40 if thorough else 8
+    reps = 160 if thorough else 8
     case = 0
     for rep in range(reps):
         for mode in ("single-point", "single-voxel", "coarse", "fine", "grid-snapped"):
@@ -693,7 +693,7 @@ def run_voxel(ck, rng, dn, thorough):
 
 # ------------------------------------------------------------------------------- random_filter
 def run_random(ck, rng, dn, thorough):
-    reps = 60 if thorough else 12
+    reps = 200 if thorough else 12
     case = 0
     for rep in range(reps):
         for kind in ("uniform", "gauss", "outliers"):
@@ -737,7 +737,7 @@ def run_random(ck, rng, dn, thorough):
 def run_camera(ck, rng, dn, thorough):
     u = u_of(dn)
     tiny = float(np.finfo(NPDT[dn]).tiny)
-    reps = 80 if thorough else 16
+    reps = 300 if thorough else 16
     case = 0
     for rep in range(reps):
         for zsign in ("front", "behind", "mixed"):
@@ -892,7 +892,7 @@ def fsigns(K):
 def run_homo(ck, rng, dn, thorough):
     u = u_of(dn)
     tiny = float(np.finfo(NPDT[dn]).tiny)
-    reps = 60 if thorough else 12
+    reps = 200 if thorough else 12
     case = 0
     for rep in range(reps):
         for D in range(1, 7):
